@@ -123,6 +123,42 @@ func checkC17(repo, tier string, workers int, solverKind string, seed int) int {
 			}
 		}
 	}
+	// part (ii): calls on independent data do not communicate through the library's own package state
+	libState := []string{"G:github.com/go-openapi/spec.", "once:G:github.com/go-openapi/spec."}
+	flowPairs, flowQueries := 0, 0
+	for i := range traces {
+		for j := i; j < len(traces); j++ {
+			flowPairs++
+			fl, q, err := engine.FindFlow(solver, traces[i].ev, traces[j].ev, libState)
+			flowQueries += q
+			if err != nil {
+				inconclusive = append(inconclusive, fmt.Sprintf("flow %s || %s: %v", traces[i].body, traces[j].body, err))
+				continue
+			}
+			if fl == nil {
+				continue
+			}
+			key := "flow|" + traces[i].body + "|" + traces[j].body
+			if seenPair[key] {
+				continue
+			}
+			seenPair[key] = true
+			desc := fmt.Sprintf("%s || %s: one call observes library state written by the other: %s (%s in %s, %s in %s)", traces[i].body, traces[j].body, fl.A.Loc, fl.A.Kind, fl.A.Fn, fl.B.Kind, fl.B.Fn)
+			confirmed, out := nativeAnswers(repo, vd, traces[i].body, traces[j].body)
+			if confirmed {
+				violations++
+				path := filepath.Join(outDir(vd), "replays", id, fmt.Sprintf("answers-%d.json", violations))
+				os.MkdirAll(filepath.Dir(path), 0o755)
+				b, _ := json.MarshalIndent(map[string]interface{}{"kind": "answers", "threads": []string{traces[i].body, traces[j].body}, "solver_witness": fl, "native_output": tail(out, 3000)}, "", " ")
+				os.WriteFile(path, b, 0o644)
+				fmt.Printf("VIOLATION property=%s replay=%s %s; natively a concurrent call returned another answer than alone\n", id, path, desc)
+				samples = append(samples, map[string]interface{}{"kind": "violation", "flow": desc})
+			} else {
+				inconclusive = append(inconclusive, "UNCONFIRMED: the solver found a schedule in which "+desc+"; natively every concurrent answer equalled the sequential one")
+			}
+		}
+	}
+	queries += flowQueries
 	sort.Strings(inconclusive)
 	for i, l := range inconclusive {
 		if i >= 10 {
@@ -137,11 +173,12 @@ func checkC17(repo, tier string, workers int, solverKind string, seed int) int {
 		"property_id": id, "tier": tier, "seed": seed, "level": "model_checking",
 		"coverage": map[string]interface{}{
 			"states": max(paths, 1), "transitions": max(int(steps), 1), "traces_validated_against_impl": 0, "samples": samples,
-			"thread_bodies": bodies, "traces": len(traces), "trace_pairs": pairs, "interleaving_queries": queries, "threads": threads,
+			"thread_bodies": bodies, "traces": len(traces), "trace_pairs": pairs, "interleaving_queries": queries, "flow_pairs": flowPairs, "flow_queries": flowQueries, "threads": threads,
 			"solver_time_s": solver.Time.Seconds(), "undischarged": inconclusive,
-			"bounds":         []string{"2 threads, one public call per thread; thread bodies: " + strings.Join(bodies, ", "), "events: reads/writes of package state and of values marked shared (struct-field granularity), Mutex/RWMutex Lock/Unlock/RLock/RUnlock, sync.Once bodies; atomic operations are synchronisation, not accesses"},
-			"outside_bounds": []string{"3 or more threads, several calls per thread, deadlock (no nested lock acquisition occurs in the recorded traces), the Go memory model beyond mutex/Once/atomic happens-before, 'every call returns what it would have returned alone' under a shared cache"},
-			"explanation":    "each thread body is executed symbolically from the pristine package state; for every pair of traces a QF_LIA query asks z3 for an interleaving (program order, mutual exclusion of critical sections, Once winner/loser) in which two conflicting accesses are adjacent",
+			"bounds":           []string{"2 threads, one public call per thread; thread bodies: " + strings.Join(bodies, ", "), "events: reads/writes of package state and of values marked shared (struct-field granularity), Mutex/RWMutex Lock/Unlock/RLock/RUnlock, sync.Once bodies; atomic operations are synchronisation, not accesses"},
+			"outside_bounds":   []string{"3 or more threads, several calls per thread, deadlock (no nested lock acquisition occurs in the recorded traces), the Go memory model beyond mutex/Once/atomic happens-before", "'every call returns what it would have returned alone' is decided as: no call observes package state of go-openapi/spec that another call wrote outside sync.Once initialisation (communication through a caller-supplied shared cache, whose transparency is C18, and through memo caches of dependencies such as swag's name provider is not covered)"},
+			"explanation_flow": "second query family per pair: is there an interleaving in which an access of one thread to go-openapi/spec package state (package variables, objects allocated by its Once initialisers) follows a write of the other thread made outside Once initialisation; sat = candidate, confirmed by running both bodies concurrently and comparing every answer with the sequential answer",
+			"explanation":      "each thread body is executed symbolically from the pristine package state; for every pair of traces a QF_LIA query asks z3 for an interleaving (program order, mutual exclusion of critical sections, Once winner/loser) in which two conflicting accesses are adjacent",
 		},
 		"assumptions": []string{"a caller-supplied shared cache is the package's own lock-protected simpleCache", "swag's name provider is part of the trace (its mutex is modelled like any other)"},
 		"wall_s":      time.Since(t0).Seconds(), "violations": violations,
@@ -201,4 +238,62 @@ func TestVerifRace(t *testing.T) {
 	cmd.Env = append(os.Environ(), "GOFLAGS=-mod=mod", "GOPROXY=off", "GOSUMDB=off", "GOTOOLCHAIN=local")
 	out, _ := cmd.CombinedOutput()
 	return strings.Contains(string(out), "DATA RACE"), string(out)
+}
+
+// nativeAnswers runs the two thread bodies concurrently many times and compares every answer with the
+// answer the body gives when run alone.
+func nativeAnswers(repo, vd, a, b string) (bool, string) {
+	workDir := filepath.Join(outDir(vd), "replays", "C17", fmt.Sprintf("run-%d", os.Getpid()))
+	os.MkdirAll(workDir, 0o755)
+	defer os.RemoveAll(workDir)
+	repl := map[string]string{}
+	add := func(pattern string) {
+		files, _ := filepath.Glob(pattern)
+		for _, f := range files {
+			repl[filepath.Join(repo, "zz_verif_"+filepath.Base(f))] = f
+		}
+	}
+	add(filepath.Join(vd, "harness", "*.go"))
+	add(filepath.Join(vd, "harness", "native", "*.go"))
+	test := fmt.Sprintf(`//go:build verif && verifnative
+
+package spec
+
+import (
+	"runtime"
+	"sync"
+	"testing"
+)
+
+func TestVerifAnswers(t *testing.T) {
+	vReset(&vWitness{Inputs: map[string]uint64{}})
+	ra, rb := %[1]s(), %[2]s()
+	for round := 0; round < 3000; round++ {
+		runtime.GOMAXPROCS(1 + round%%4)
+		var ga, gb string
+		var wg sync.WaitGroup
+		wg.Add(2)
+		go func() { defer wg.Done(); ga = %[1]s() }()
+		go func() { defer wg.Done(); gb = %[2]s() }()
+		wg.Wait()
+		if ga != ra {
+			t.Fatalf("ANSWER DIFFERS round %%d %[1]s: alone %%s concurrent %%s", round, ra, ga)
+		}
+		if gb != rb {
+			t.Fatalf("ANSWER DIFFERS round %%d %[2]s: alone %%s concurrent %%s", round, rb, gb)
+		}
+	}
+}
+`, a, b)
+	tf := filepath.Join(workDir, "zz_verif_answers_test.go")
+	os.WriteFile(tf, []byte(test), 0o644)
+	repl[filepath.Join(repo, "zz_verif_answers_test.go")] = tf
+	ovb, _ := json.Marshal(map[string]interface{}{"Replace": repl})
+	ov := filepath.Join(workDir, "overlay.json")
+	os.WriteFile(ov, ovb, 0o644)
+	cmd := exec.Command("go", "test", "-tags", "verif verifnative", "-overlay", ov, "-run", "^TestVerifAnswers$", "-count=1", "-vet=off", "-timeout", "10m", ".")
+	cmd.Dir = repo
+	cmd.Env = append(os.Environ(), "GOFLAGS=-mod=mod", "GOPROXY=off", "GOSUMDB=off", "GOTOOLCHAIN=local")
+	out, _ := cmd.CombinedOutput()
+	return strings.Contains(string(out), "ANSWER DIFFERS") || strings.Contains(string(out), "concurrent map"), string(out)
 }
